@@ -103,7 +103,7 @@ def run(ctx):
                                                                                          "EvStart" if r[2][3] == 1 else "EvEnd", len(lst)),
                                      r, mons, dict(failing_monitor="mon_order", clause=cl, failing_cases=[x[0]["id"] for x in lst[:30]])))
     # augment the evidence
-    path = os.path.join(fw.ROOT, "evidence", ctx.pid + ".json")
+    path = fw.evidence_path(ctx.pid)
     try:
         ev = json.load(open(path))
         ev["coverage"]["c01"] = dict(violated_clauses=hist, smgraph=smgraph.coverage(_SM).get("smgraph"), cited_smgraph_facts=CITED,
